@@ -1,6 +1,414 @@
-//! Monitor for C19 (see /verif/DESIGN.md §5 C19).
-use vcommon::Args;
+//! C19 — privileged instructions reject callers without the required role.
+//!
+//! Mechanism: *authority-mutation replay*. Every successful transaction of the traced workloads
+//! (bootstrap, exchange workload, configuration / oracle / GT / GLV / treasury / timelock scenarios)
+//! is re-executed from its own pre-state snapshot, instruction by instruction, with the authority
+//! mutated:
+//!   A. same signer and accounts after the signer's required role was revoked through the real
+//!      `revoke_role` (discriminating: nothing else changed);
+//!   B. the signer replaced by a stranger holding no role;
+//!   C. the signer replaced by a key that holds every *other* role.
+//! All variants must be rejected. The table below (instruction → documented privilege) is written from
+//! the instruction documentation, independently of the `#[access_control]` attributes.
+//!
+//! Honest note: "a rejection leaves all accounts unchanged" follows from transaction atomicity, which
+//! the runtime (here: hostsvm) provides; what is observed is the rejection.
+use crate::sim::Sim;
+use crate::world::{exchange::load, *};
+use anchor_lang::{prelude::Pubkey, solana_program::{hash::hashv, instruction::Instruction}};
+use gmsol_store::states::Store;
+use gmsol_utils::role::RoleKey;
+use hostsvm::Svm;
+use std::collections::{BTreeMap, BTreeSet};
+use vcommon::{json, monitor::run_shards, Args, Monitor};
 
-pub fn run(_args: &Args) -> Option<i32> {
-    None
+#[derive(Clone, Copy, Debug, PartialEq, Eq)]
+pub enum Priv {
+    /// Store authority (admin) only.
+    Admin,
+    /// Holder of the named store role.
+    Role(&'static str),
+    /// MARKET_KEEPER or MARKET_CONFIG_KEEPER (policy details: C20).
+    MarketConfig,
+    /// Bound to a specific key recorded in an account (owner, receiver, buffer authority, …);
+    /// a stranger must be rejected.
+    Bound,
+    /// Owner, or ORDER_KEEPER for terminal actions (details: C23); a stranger must be rejected.
+    OwnerOrKeeper,
+    /// Needs no privilege by design (acts on the signer's own accounts / read-only / anyone may pay).
+    Open,
+}
+
+use Priv::*;
+
+pub const STORE_TABLE: &[(&str, Priv)] = &[
+    ("initialize", Open),
+    ("update_last_restarted_slot", Admin),
+    ("transfer_store_authority", Admin),
+    ("accept_store_authority", Bound),
+    ("transfer_receiver", Bound),
+    ("accept_receiver", Bound),
+    ("set_token_map", Role(RoleKey::MARKET_KEEPER)),
+    ("check_admin", Open),
+    ("check_role", Open),
+    ("has_admin", Open),
+    ("has_role", Open),
+    ("enable_role", Admin),
+    ("disable_role", Admin),
+    ("grant_role", Admin),
+    ("revoke_role", Admin),
+    ("insert_amount", Role(RoleKey::CONFIG_KEEPER)),
+    ("insert_factor", Role(RoleKey::CONFIG_KEEPER)),
+    ("insert_address", Role(RoleKey::CONFIG_KEEPER)),
+    ("insert_order_fee_discount_for_referred_user", Role(RoleKey::MARKET_KEEPER)),
+    ("toggle_feature", Role(RoleKey::FEATURE_KEEPER)),
+    ("initialize_token_map", Open),
+    ("push_to_token_map", Role(RoleKey::MARKET_KEEPER)),
+    ("push_to_token_map_synthetic", Role(RoleKey::MARKET_KEEPER)),
+    ("toggle_token_config", Role(RoleKey::MARKET_KEEPER)),
+    ("toggle_token_price_adjustment", Role(RoleKey::MARKET_KEEPER)),
+    ("set_feed_config_market_status_flag", Role(RoleKey::MARKET_KEEPER)),
+    ("set_expected_provider", Role(RoleKey::MARKET_KEEPER)),
+    ("set_feed_config_v2", Role(RoleKey::MARKET_KEEPER)),
+    ("is_token_config_enabled", Open),
+    ("token_expected_provider", Open),
+    ("token_feed", Open),
+    ("token_timestamp_adjustment", Open),
+    ("token_name", Open),
+    ("token_decimals", Open),
+    ("token_precision", Open),
+    ("initialize_oracle", Open),
+    ("clear_all_prices", Role(RoleKey::ORACLE_CONTROLLER)),
+    ("set_prices_from_price_feed", Role(RoleKey::ORACLE_CONTROLLER)),
+    ("initialize_price_feed", Role(RoleKey::PRICE_KEEPER)),
+    ("update_price_feed_with_chainlink", Role(RoleKey::PRICE_KEEPER)),
+    ("update_price_feed_with_chainlink_idempotent", Role(RoleKey::PRICE_KEEPER)),
+    ("initialize_market", Role(RoleKey::MARKET_KEEPER)),
+    ("toggle_market", Role(RoleKey::MARKET_KEEPER)),
+    ("market_transfer_in", Role(RoleKey::MARKET_KEEPER)),
+    ("update_market_config", MarketConfig),
+    ("update_market_config_flag", MarketConfig),
+    ("update_market_config_with_buffer", MarketConfig),
+    ("get_market_status", Open),
+    ("get_market_token_price", Open),
+    ("get_market_token_value", Open),
+    ("initialize_market_config_buffer", Open),
+    ("set_market_config_buffer_authority", Bound),
+    ("close_market_config_buffer", Bound),
+    ("push_to_market_config_buffer", Bound),
+    ("set_market_config_updatable", Role(RoleKey::MARKET_KEEPER)),
+    ("toggle_gt_minting", Role(RoleKey::MARKET_KEEPER)),
+    ("claim_fees_from_market", Bound),
+    ("initialize_market_vault", Role(RoleKey::MARKET_KEEPER)),
+    ("use_claimable_account", Role(RoleKey::ORDER_KEEPER)),
+    ("close_empty_claimable_account", Role(RoleKey::ORDER_KEEPER)),
+    ("prepare_associated_token_account", Open),
+    ("create_token_metadata", Role(RoleKey::MARKET_KEEPER)),
+    ("update_token_metadata", Role(RoleKey::MARKET_KEEPER)),
+    ("create_deposit", Open),
+    ("close_deposit", OwnerOrKeeper),
+    ("execute_deposit", Role(RoleKey::ORDER_KEEPER)),
+    ("create_withdrawal", Open),
+    ("close_withdrawal", OwnerOrKeeper),
+    ("execute_withdrawal", Role(RoleKey::ORDER_KEEPER)),
+    ("prepare_position", Open),
+    ("create_order_v2", Open),
+    ("close_order_v2", OwnerOrKeeper),
+    ("settle_builder_fee", Open),
+    ("cancel_order_if_no_position", Role(RoleKey::ORDER_KEEPER)),
+    ("close_empty_position", Bound),
+    ("prepare_trade_event_buffer", Open),
+    ("update_order_v2", Bound),
+    ("set_should_keep_position_account", Bound),
+    ("execute_increase_or_swap_order_v2", Role(RoleKey::ORDER_KEEPER)),
+    ("execute_decrease_order_v2", Role(RoleKey::ORDER_KEEPER)),
+    ("liquidate", Role(RoleKey::ORDER_KEEPER)),
+    ("update_adl_state", Role(RoleKey::ORDER_KEEPER)),
+    ("auto_deleverage", Role(RoleKey::ORDER_KEEPER)),
+    ("update_closed_state", Role(RoleKey::ORDER_KEEPER)),
+    ("update_fees_state", Role(RoleKey::ORDER_KEEPER)),
+    ("create_shift", Open),
+    ("execute_shift", Role(RoleKey::ORDER_KEEPER)),
+    ("close_shift", OwnerOrKeeper),
+    ("initialize_gt", Role(RoleKey::MARKET_KEEPER)),
+    ("gt_set_order_fee_discount_factors", Role(RoleKey::MARKET_KEEPER)),
+    ("gt_set_referral_reward_factors", Role(RoleKey::GT_CONTROLLER)),
+    ("gt_set_exchange_time_window", Role(RoleKey::GT_CONTROLLER)),
+    ("prepare_gt_exchange_vault", Open),
+    ("confirm_gt_exchange_vault_v2", Role(RoleKey::GT_CONTROLLER)),
+    ("request_gt_exchange", Open),
+    ("close_gt_exchange", Role(RoleKey::GT_CONTROLLER)),
+    ("update_gt_cumulative_inv_cost_factor", Role(RoleKey::GT_CONTROLLER)),
+    ("mint_gt_reward", Role(RoleKey::GT_CONTROLLER)),
+    ("prepare_user", Open),
+    ("initialize_referral_code", Open),
+    ("set_referrer", Open),
+    ("set_builder_fee_factor", Open),
+    ("transfer_referral_code", Open),
+    ("cancel_referral_code_transfer", Open),
+    ("accept_referral_code", Open),
+    ("initialize_glv", Role(RoleKey::MARKET_KEEPER)),
+    ("update_glv_market_config", Role(RoleKey::MARKET_KEEPER)),
+    ("toggle_glv_market_flag", Role(RoleKey::MARKET_KEEPER)),
+    ("update_glv_config", Role(RoleKey::MARKET_KEEPER)),
+    ("insert_glv_market", Role(RoleKey::MARKET_KEEPER)),
+    ("remove_glv_market", Role(RoleKey::MARKET_KEEPER)),
+    ("create_glv_deposit", Open),
+    ("close_glv_deposit", OwnerOrKeeper),
+    ("execute_glv_deposit", Role(RoleKey::ORDER_KEEPER)),
+    ("create_glv_withdrawal", Open),
+    ("close_glv_withdrawal", OwnerOrKeeper),
+    ("execute_glv_withdrawal", Role(RoleKey::ORDER_KEEPER)),
+    ("create_glv_shift", Role(RoleKey::ORDER_KEEPER)),
+    ("close_glv_shift", Role(RoleKey::ORDER_KEEPER)),
+    ("execute_glv_shift", Role(RoleKey::ORDER_KEEPER)),
+    ("get_glv_token_value", Open),
+    ("migrate_referral_code", Role(RoleKey::MIGRATION_KEEPER)),
+    ("initialize_callback_authority", Open),
+    ("close_virtual_inventory", Role(RoleKey::MARKET_KEEPER)),
+    ("disable_virtual_inventory", Role(RoleKey::MARKET_KEEPER)),
+    ("leave_disabled_virtual_inventory", Role(RoleKey::MARKET_KEEPER)),
+    ("create_virtual_inventory_for_swaps", Role(RoleKey::MARKET_KEEPER)),
+    ("join_virtual_inventory_for_swaps", Role(RoleKey::MARKET_KEEPER)),
+    ("leave_virtual_inventory_for_swaps", Role(RoleKey::MARKET_KEEPER)),
+    ("create_virtual_inventory_for_positions", Role(RoleKey::MARKET_KEEPER)),
+    ("join_virtual_inventory_for_positions", Role(RoleKey::MARKET_KEEPER)),
+    ("leave_virtual_inventory_for_positions", Role(RoleKey::MARKET_KEEPER)),
+];
+
+pub fn disc(name: &str) -> [u8; 8] {
+    let h = hashv(&[b"global:", name.as_bytes()]).to_bytes();
+    let mut d = [0u8; 8];
+    d.copy_from_slice(&h[..8]);
+    d
+}
+
+fn lookup(ix: &Instruction) -> Option<(&'static str, Priv)> {
+    if ix.program_id != STORE_PID || ix.data.len() < 8 {
+        return None;
+    }
+    STORE_TABLE.iter().find(|(n, _)| disc(n) == ix.data[..8]).copied()
+}
+
+fn has_role(svm: &Svm, store: &Pubkey, who: &Pubkey, role: &str) -> bool {
+    load::<Store>(svm, store).map(|s| s.role().has_role(who, role).unwrap_or(false)).unwrap_or(false)
+}
+
+fn substitute(ix: &Instruction, from: &Pubkey, to: &Pubkey) -> Instruction {
+    let mut ix = ix.clone();
+    for m in ix.accounts.iter_mut() {
+        if m.pubkey == *from {
+            m.pubkey = *to;
+        }
+    }
+    ix
+}
+
+struct Env {
+    store: Pubkey,
+    admin: Pubkey,
+}
+
+/// Replay one traced transaction with mutated authorities.
+fn replay(m: &mut Monitor, env: &Env, t: &Traced, per_name_budget: &mut BTreeMap<&'static str, u32>, shard: u64) {
+    for (i, ix) in t.ixs.iter().enumerate() {
+        let Some((name, privilege)) = lookup(ix) else { continue };
+        if privilege == Open {
+            m.count(&format!("seen_open_{name}"));
+            continue;
+        }
+        let budget = per_name_budget.entry(name).or_insert(0);
+        if *budget >= 12 {
+            continue;
+        }
+        // the signer of this instruction
+        let Some(signer) = ix.accounts.iter().find(|a| a.is_signer && t.signers.contains(&a.pubkey)).map(|a| a.pubkey) else { continue };
+        // state right before instruction i
+        let mut base = t.pre.clone();
+        if i > 0 && base.process(&t.ixs[..i], &t.signers).is_err() {
+            continue;
+        }
+        // sanity: the instruction alone succeeds from here
+        {
+            let mut s = base.clone();
+            if s.process(std::slice::from_ref(ix), &t.signers).is_err() {
+                m.count("replay_baseline_not_reproducible");
+                continue;
+            }
+        }
+        *budget += 1;
+        m.count(&format!("positive_{name}"));
+        let stranger = hostsvm::key("c19-stranger");
+        let wit = |variant: &str| json!({"shard": shard, "instruction": name, "variant": variant, "privilege": format!("{privilege:?}"), "signer": signer.to_string()});
+        // Variant A: revoke the role of the same signer
+        let roles: Vec<&'static str> = match privilege {
+            Role(r) => vec![r],
+            MarketConfig => vec![RoleKey::MARKET_KEEPER, RoleKey::MARKET_CONFIG_KEEPER],
+            _ => vec![],
+        };
+        if let Role(r) = privilege {
+            if !has_role(&base, &env.store, &signer, r) && signer != env.admin {
+                m.eval();
+                m.violation(&format!("C19:store:{name}:succeeded_without_required_role"), wit("baseline"));
+            }
+        }
+        if !roles.is_empty() {
+            let mut s = base.clone();
+            let mut revoked = true;
+            for r in &roles {
+                if has_role(&s, &env.store, &signer, r) {
+                    let rv = six(
+                        gmsol_store::accounts::RevokeRole { authority: env.admin, store: env.store },
+                        gmsol_store::instruction::RevokeRole { user: signer, role: r.to_string() },
+                    );
+                    if s.process(&[rv], &[env.admin]).is_err() {
+                        revoked = false;
+                    }
+                }
+            }
+            if revoked && signer != env.admin {
+                m.eval();
+                match s.process(std::slice::from_ref(ix), &t.signers) {
+                    Ok(_) => m.violation(&format!("C19:store:{name}:accepted_after_role_revoked"), wit("A: same signer, role revoked")),
+                    Err(_) => {
+                        m.count(&format!("denied_A_{name}"));
+                        m.nontrivial(format!("A:{name}").as_bytes());
+                    }
+                }
+            }
+        }
+        // Variant B: a stranger instead of the signer
+        {
+            let mut s = base.clone();
+            s.airdrop(&stranger, 100 * LAMPORTS);
+            let ix2 = substitute(ix, &signer, &stranger);
+            let signers: Vec<Pubkey> = t.signers.iter().map(|k| if *k == signer { stranger } else { *k }).collect();
+            m.eval();
+            match s.process(&[ix2], &signers) {
+                Ok(_) => m.violation(&format!("C19:store:{name}:accepted_from_stranger"), wit("B: stranger substituted for the signer")),
+                Err(_) => {
+                    m.count(&format!("denied_B_{name}"));
+                    m.nontrivial(format!("B:{name}").as_bytes());
+                }
+            }
+        }
+        // Variant C: a key holding every other role (and, for Admin, every role)
+        {
+            let mut s = base.clone();
+            let other = hostsvm::key("c19-other-roles");
+            s.airdrop(&other, 100 * LAMPORTS);
+            let mut ok = true;
+            for r in ALL_ROLES {
+                if roles.contains(r) || *r == RoleKey::RESTART_ADMIN {
+                    continue;
+                }
+                let g = six(
+                    gmsol_store::accounts::GrantRole { authority: env.admin, store: env.store },
+                    gmsol_store::instruction::GrantRole { user: other, role: r.to_string() },
+                );
+                if s.process(&[g], &[env.admin]).is_err() {
+                    ok = false;
+                }
+            }
+            if ok && matches!(privilege, Role(_) | Admin | MarketConfig) {
+                let ix2 = substitute(ix, &signer, &other);
+                let signers: Vec<Pubkey> = t.signers.iter().map(|k| if *k == signer { other } else { *k }).collect();
+                m.eval();
+                match s.process(&[ix2], &signers) {
+                    Ok(_) => m.violation(&format!("C19:store:{name}:accepted_from_holder_of_other_roles"), wit("C: signer replaced by a holder of all other roles")),
+                    Err(_) => {
+                        m.count(&format!("denied_C_{name}"));
+                        m.nontrivial(format!("C:{name}").as_bytes());
+                    }
+                }
+            }
+        }
+    }
+}
+
+fn run_shard(args: &Args, shard: u64, m: &mut Monitor) {
+    let mut budget: BTreeMap<&'static str, u32> = BTreeMap::new();
+    // Source 1: bootstrap + exchange workload
+    let steps = args.scale(220, 500);
+    let mut sim = Sim::new_traced(args.seed, shard, 6);
+    let env = Env { store: sim.w.store, admin: sim.w.admin };
+    for _ in 0..steps {
+        let _ = sim.step();
+    }
+    // Source 2: oracle controller instructions
+    {
+        let keeper = sim.w.keeper;
+        sim.refresh_prices();
+        let tokens: Vec<Pubkey> = sim.w.tokens.iter().map(|t| t.mint).collect();
+        let feeds: Vec<Pubkey> = sim.w.tokens.iter().map(|t| t.feed).collect();
+        let mut ix = six(
+            gmsol_store::accounts::SetPricesFromPriceFeed { authority: keeper, store: sim.w.store, oracle: sim.w.oracle, token_map: sim.w.token_map, chainlink_program: None },
+            gmsol_store::instruction::SetPricesFromPriceFeed { tokens },
+        );
+        ix.accounts.extend(feeds.iter().map(|f| anchor_lang::solana_program::instruction::AccountMeta::new_readonly(*f, false)));
+        let _ = sim.w.send(&[ix], &[keeper]);
+        let clr = six(
+            gmsol_store::accounts::ClearAllPrices { authority: keeper, store: sim.w.store, oracle: sim.w.oracle },
+            gmsol_store::instruction::ClearAllPrices {},
+        );
+        let _ = sim.w.send(&[clr], &[keeper]);
+        let _ = sim.w.insert_amount("oracle_max_age", 3600);
+        let _ = sim.w.insert_factor("oracle_ref_price_deviation", UNIT / 100);
+        let store = sim.w.store;
+        let _ = sim.w.send(
+            &[six(
+                gmsol_store::accounts::SetMarketConfigUpdatable { authority: keeper, store },
+                gmsol_store::instruction::SetMarketConfigUpdatable { is_flag: false, key: "swap_fee_receiver_factor".into(), updatable: true },
+            )],
+            &[keeper],
+        );
+        let ix = sim.w.update_market_config_flag_ix(keeper, 0, "skip_borrowing_fee_for_smaller_side", true);
+        let _ = sim.w.send(&[ix], &[keeper]);
+    }
+    let traces = sim.w.take_trace();
+    m.add("traced_transactions", traces.len() as u64);
+    for t in &traces {
+        replay(m, &env, t, &mut budget, shard);
+    }
+    for (name, n) in budget {
+        m.max(&format!("max_variants_runs_{name}"), n as u64);
+    }
+}
+
+pub fn run(args: &Args) -> Option<i32> {
+    let mut mon = Monitor::new(
+        args,
+        "authority-mutation replay: every successful transaction of the traced workloads (store bootstrap, exchange \
+         workload, oracle / config scenarios) is re-executed from its pre-state, per privileged instruction, with \
+         (A) the signer's required role revoked via the real revoke_role, (B) a stranger as signer, (C) a holder of \
+         all other roles as signer; all must be rejected. non-trivial = a denied variant; distinct = (variant, instruction)",
+    );
+    mon.assume("privilege table written from the instruction documentation (c19.rs STORE_TABLE)");
+    mon.assume("'rejection leaves accounts unchanged' is provided by transaction atomicity (runtime), not observed");
+    let shards = args.scale(16, 64);
+    let quiet = hostsvm::QuietStdout::new();
+    run_shards(&mut mon, args.threads, shards, |shard, m| run_shard(args, shard, m));
+    drop(quiet);
+    // coverage report: which privileged instructions had a positive scenario with denied variants
+    let mut covered: BTreeSet<&str> = BTreeSet::new();
+    let mut uncovered: Vec<&str> = vec![];
+    for (name, p) in STORE_TABLE {
+        if *p == Open {
+            continue;
+        }
+        if mon.counter(&format!("positive_{name}")) > 0 {
+            covered.insert(name);
+        } else {
+            uncovered.push(name);
+        }
+    }
+    mon.set_extra("store_privileged_instructions_covered", json!(covered));
+    mon.set_extra("store_privileged_instructions_without_positive_scenario", json!(uncovered));
+    mon.set_extra(
+        "other_programs",
+        json!("treasury / timelock / liquidity-provider / competition instruction tables: scenarios not wired into this check yet; their role rules are exercised by the C36 / C37 / C38 / C39 monitors' own negative cases"),
+    );
+    mon.add("privileged_instructions_covered", covered.len() as u64);
+    mon.require("privileged_instructions_covered", 15);
+    Some(mon.finish())
 }
